@@ -60,7 +60,91 @@ func pickK(r *hx.Rand, from []int, k int) []int {
 	return p[:k]
 }
 
+// genAhead: header sync ahead of block sync at a configuration change, then a BLOCK for the already indexed height 1
+// announcing a configuration of outsiders (refused / refused for its block root only / committed), then headers governed by
+// height 1 signed by those outsiders and by the genuine members.
+func genAhead(r *hx.Rand) string {
+	cf := configs[r.Intn(len(configs))]
+	n, c := cf[0], cf[1]
+	var members, outsiders []int
+	for j := 0; j < universe; j++ {
+		if j < n {
+			members = append(members, j)
+		} else {
+			outsiders = append(outsiders, j)
+		}
+	}
+	sign := func(ids []int) string {
+		var t []string
+		for _, i := range ids {
+			t = append(t, fmt.Sprintf("s%d", i))
+		}
+		if len(t) == 0 {
+			return "-"
+		}
+		return strings.Join(t, ".")
+	}
+	// height 1: a genuinely signed configuration change
+	c1 := 1 + r.Intn(2)
+	ids1 := members
+	if r.Chance(50) {
+		ids1 = pickK(r, append(append([]int{}, members...), outsiders[:4]...), 2*c1+1+r.Intn(4))
+	}
+	need0 := imax(c+1, mOf(n))
+	bk := pickK(r, members, need0+r.Intn(n-need0+1))
+	ops := []string{fmt.Sprintf("h:t:1:1:N,%d,0,%s:%s:%s", c1, joinInts(ids1), joinInts(bk), sign(bk))}
+	hh := 1
+	need1 := imax(c1+1, mOf(len(ids1)))
+	for k := 0; k < 1+r.Intn(2); k++ {
+		hh++
+		b := pickK(r, ids1, need1+r.Intn(len(ids1)-need1+1))
+		ops = append(ops, fmt.Sprintf("h:t:%d:%d:L1:%s:%s", hh, hh, joinInts(b), sign(b)))
+	}
+	// the bogus block for height 1
+	var pool []int
+	for _, o := range outsiders[4:] {
+		pool = append(pool, o)
+	}
+	outs := pickK(r, pool, 3+r.Intn(5))
+	c2 := 1 + r.Intn(2)
+	tag := "k"
+	if r.Chance(35) {
+		tag = "K"
+	}
+	var bbk []int
+	var bsig string
+	switch r.Intn(4) {
+	case 0, 1: // listed and signed by the outsiders it announces
+		bbk = pickK(r, outs, imax(c+1, mOf(n)))
+		bsig = sign(bbk)
+	case 2: // C+1 genuine members listed, m of them sign: passes the shipped verifyHeader
+		bbk = pickK(r, members, need0)
+		bsig = sign(bbk[:mOf(n)])
+	default: // members listed, outsiders sign
+		bbk = pickK(r, members, need0)
+		bsig = sign(pickK(r, outs, mOf(n)))
+	}
+	ops = append(ops, fmt.Sprintf("%s:k0:1:%d:N,%d,0,%s:%s:%s", tag, 1+r.Intn(2), c2, joinInts(outs), joinInts(bbk), bsig))
+	// headers governed by height 1: signed by the outsiders, then by the genuine members (sometimes the other way round)
+	needO := imax(c2+1, mOf(len(outs)))
+	ob := pickK(r, outs, imin(len(outs), needO+r.Intn(2)))
+	gb := pickK(r, ids1, need1+r.Intn(len(ids1)-need1+1))
+	first, second := ob, gb
+	if r.Chance(25) {
+		first, second = gb, ob
+	}
+	ops = append(ops, fmt.Sprintf("h:t:%d:%d:L1:%s:%s", hh+1, hh+1, joinInts(first), sign(first)))
+	ops = append(ops, fmt.Sprintf("h:t:%d:%d:L1:%s:%s", hh+1, hh+2, joinInts(second), sign(second)))
+	if r.Chance(40) { // the same block again, or the genuine height-1 header as a block
+		ops = append(ops, ops[len(ops)-3])
+	}
+	return fmt.Sprintf("V %d %d %s", n, c, strings.Join(ops, ";"))
+}
+
 func gen(r *hx.Rand, tier string, i int) string {
+	if r.Chance(22) {
+		return genAhead(r)
+	}
 	cf := configs[r.Intn(len(configs))]
 	n, c := cf[0], cf[1]
 	var all []int
@@ -296,7 +380,12 @@ func gen(r *hx.Rand, tier string, i int) string {
 		if len(sigs) > 0 {
 			sg = strings.Join(sigs, ".")
 		}
-		ops = append(ops, fmt.Sprintf("h:%s:%d:%d:%s:%s:%s", prev, height, ts, cfgS, joinInts(bk), sg))
+		tag := "h"
+		if r.Chance(7) {
+			tag = r.Pick([]string{"k", "k", "K"}) // deliver it as a block instead (accepted only at block height + 1)
+			accept = false
+		}
+		ops = append(ops, fmt.Sprintf("%s:%s:%d:%d:%s:%s:%s", tag, prev, height, ts, cfgS, joinInts(bk), sg))
 		if accept {
 			chain = append(chain, simHdr{height, ts, newCfg, lastCfg})
 		}
